@@ -153,6 +153,24 @@ class MonoHooks(Hooks):
             t = _Tbl()
             self.tables.append(t)
             return t
+        if last in ('count_nonzero', 'sum') and len(args) == 1 and not kwargs:
+            # how many wavelengths satisfy a comparison with a bound of the window: decided position by position by where the configuration puts the bounds
+            m_ = interp._as_arr(args[0])
+            if isinstance(m_, Arr) and m_.dims == (N,) and m_.mask is None and last == 'count_nonzero' or \
+                    isinstance(m_, Arr) and m_.dims == (N,) and m_.mask is None and alg.leaf_syms(m_.poly)[0] & {'wmax', 'wmin'} and not (alg.leaf_syms(m_.poly)[0] - {'wmax', 'wmin', 'wav', 'unit:micron'}):
+                mic_ = unit_atom('micron')
+                ws_ = [alg.index_at(sym('wav', N), N, Poly.const(k_)) for k_ in range(NW)]          # stored in decreasing order
+                facts_ = alg.OrderFacts(ws_ + [sym('wmax') * mic_, sym('wmin') * mic_], [4 * (NW - 1 - k_) + 2 for k_ in range(NW)] + [4 * self.nb['wmax'] + 1, 4 * self.nb['wmin']])
+                tot_ = 0
+                for k_ in range(NW):
+                    b_ = facts_.simplify(alg.index_at(m_.poly, N, Poly.const(k_)))
+                    if not (b_.is_const() and b_.const_value() in (0, 1)):
+                        tot_ = None
+                        break
+                    tot_ += int(b_.const_value())
+                if tot_ is not None:
+                    return tot_
+            return NotImplemented
         if last == 'searchsorted' and len(args) >= 2:
             tab, q = interp._as_arr(args[0]), interp._as_arr(args[1])
             if isinstance(tab, Arr) and isinstance(q, Arr):
